@@ -17,6 +17,8 @@ def check(ctx):
     for ok, key, where, msg in obs:
         (rep.ok if ok else rep.bad)("R-UTF8", key, where, msg)
     rep.floor("write_all fragments in the Zinc encoder", nfr, 30)
+    from rules import escapes
+    escapes.check_write_methods(ctx, rep)
     recursion.check(ctx, E, rep, data_bounded=True)
     rep.assume("A2: external functions outside the may-panic table (std, chrono, serde_json, regex) return without panicking")
     rep.assume("A6: fewer than 2^64 loop iterations per run (counter +1 overflow)")
